@@ -119,6 +119,14 @@ VARIANTS = {
             return CardNumber::BLANK;
         }
         POKER_DECK.0[index]""")], ["C18"]),
+    "flush_by_equality": ([sub("src/cards/five.rs", "(self.and_bits() & CardNumber::SUIT_FILTER) != 0", "{ let s = self.first().get_suit_flag(); s != 0 && self.0.iter().all(|c| c.get_suit_flag() == s) }")], ["C01", "C13", "C08", "C05"]),
+    "rank_bits_per_card": ([sub("src/cards/five.rs", "self.or_bits() >> CardNumber::RANK_FLAG_SHIFT", "self.0.iter().fold(0, |acc, c| acc | c.get_rank_bit())")], ["C01", "C13", "C05"]),
+    "primes_via_rank_lookup": ([sub("src/cards/five.rs", """        (self.first().get_rank_prime()
+            * self.second().get_rank_prime()
+            * self.third().get_rank_prime()
+            * self.forth().get_rank_prime()
+            * self.fifth().get_rank_prime()) as usize""", """        const P: [u32; 15] = [0, 0, 2, 3, 5, 7, 11, 13, 17, 19, 23, 29, 31, 37, 41];
+        self.0.iter().map(|c| P[c.get_card_rank() as usize]).product::<u32>() as usize""")], ["C01", "C05"]),
     "from_index_let_else": ([sub("src/parse.rs", """    let rank: CardRank = match chars.next() {
         None => return (CardRank::BLANK, CardSuit::BLANK),
         Some(r) => CardRank::from_char(r),
